@@ -5,18 +5,18 @@ package sim
 // a given VERIF_SEED regardless of machine speed.
 var Plans = map[string][]PlanItem{
 	"C01": {{Scen: "world", Quick: 6000, Thorough: 400000}, {Scen: "giant", Quick: 2, Thorough: 48}},
-	"C02": {{Scen: "world", Quick: 4000, Thorough: 250000}, {Scen: "giant", Quick: 2, Thorough: 48}},
-	"C03": {{Scen: "world", Quick: 4000, Thorough: 250000}, {Scen: "giant", Quick: 2, Thorough: 32}},
+	"C02": {{Scen: "world", Quick: 4000, Thorough: 250000}, {Scen: "giant", Quick: 2, Thorough: 48}, {Scen: "lifecycle", Quick: 800, Thorough: 60000}},
+	"C03": {{Scen: "world", Quick: 4000, Thorough: 250000}, {Scen: "giant", Quick: 2, Thorough: 32}, {Scen: "lifecycle", Quick: 800, Thorough: 60000}},
 	"C04": {{Scen: "world", Quick: 3000, Thorough: 150000}, {Scen: "aligned", Quick: 6, Thorough: 64}},
 	"C05": {{Scen: "nav", Quick: 12000, Thorough: 600000}},
 	"C06": {{Scen: "stored", Quick: 5000, Thorough: 300000}},
 	"C07": {{Scen: "docvalues", Quick: 3000, Thorough: 200000}, {Scen: "giant", Quick: 3, Thorough: 64}},
 	"C08": {{Scen: "dictionary", Quick: 8000, Thorough: 500000}},
-	"C18": {{Scen: "dmt", Quick: 8000, Thorough: 500000}},
+	"C18": {{Scen: "dmt", Quick: 8000, Thorough: 500000}, {Scen: "lifecycle", Quick: 800, Thorough: 60000}},
 	"C13": {{Scen: "reuse", Quick: 6000, Thorough: 400000}, {Scen: "docvalues", Quick: 1500, Thorough: 100000}},
-	"C15": {{Scen: "immutability", Quick: 2000, Thorough: 200000}},
+	"C15": {{Scen: "immutability", Quick: 2000, Thorough: 200000}, {Scen: "lifecycle", Quick: 800, Thorough: 60000}},
 	"C17": {{Scen: "tree", Quick: 3000, Thorough: 200000}},
-	"C12": {{Scen: "persist-fault", Quick: 160, Thorough: 12000}},
+	"C12": {{Scen: "persist-fault", Quick: 160, Thorough: 12000}, {Scen: "lifecycle", Quick: 800, Thorough: 60000}},
 	"C19": {{Scen: "read-fault", Quick: 640, Thorough: 40000}, {Scen: "read-fault-large", Quick: 160, Thorough: 12000}},
 	"C09": {{Scen: "concurrent", Quick: 4000, Thorough: 300000}},
 	"C14": {{Scen: "build-history", Quick: 2500, Thorough: 150000}},
